@@ -94,6 +94,7 @@ def main():
     drivers = spec['drivers'] if 'drivers' in spec else [spec]
     agg = dict(stat={}, mx={}, outcomes={}, samples=[], inexh=[], executed=0, nontrivial=0, distinct=0, skipped=0, enumerated=0, saturated=0)
     viols = []  # (drv, exe, variant, sig, case, detail)
+    drv_args = {}
     for d in drivers:
         drv, variant = d['driver'], d.get('variant', 'asan')
         exe, err = build(repo, variant, drv, d, log)
@@ -102,6 +103,7 @@ def main():
         deadline = a.deadline if a.deadline is not None else d.get('deadline', {}).get(tier, 1500 if tier == 'quick' else 2400)
         nshards = max(1, min(a.jobs, d.get('shards', {}).get(tier, 16)))
         base = [exe, '--tier', tier, '--seed', str(seed), '--case-limit', str(d.get('case_limit', {}).get(tier, 300))] + d.get('args', [])
+        drv_args[drv] = base[5:]
         # determinism self-test: the same sampled cases in two separate processes
         stride = d.get('obs_stride', {}).get(tier, 97)
         for st in (stride, 7, 1):
@@ -193,7 +195,7 @@ def main():
                        replay_cmd='run/replay.sh %s' % path), open(path, 'w'), indent=1)
         if reported < 25:
             if seen_sig.get(sig, 0) < 3:
-                r = sh([exe, '--tier', tier, '--seed', str(seed), '--replay', case], env=env, cwd=VERIF)
+                r = sh([exe, '--tier', tier, '--seed', str(seed)] + drv_args.get(drv, []) + ['--replay', case], env=env, cwd=VERIF)
                 reproduced = ('VIOL ' in r.stdout) or ('AddressSanitizer' in r.stdout) or ('runtime error' in r.stdout) or r.returncode not in (0, 2)
                 if not reproduced:
                     log.write('NOT REPRODUCED: %s %s\n%s\n' % (sig, case, r.stdout[-3000:]))
